@@ -454,7 +454,29 @@ func round3(f float64) float64 { return float64(int(f*1000)) / 1000 }
 
 var propertyAssumptions = map[string][]string{}
 
-func shapesOf(c *Contract) []*Shape { return nil }
+// shapesOf: every subset (in the listed order) of the option constructors named
+// by the contract's `shapes` directive.
+func shapesOf(c *Contract) []*Shape {
+	if len(c.Shapes) == 0 {
+		return nil
+	}
+	all := strings.Fields(strings.Join(c.Shapes, " "))
+	var out []*Shape
+	for mask := 0; mask < 1<<len(all); mask++ {
+		sh := &Shape{All: all}
+		for i, n := range all {
+			if mask&(1<<i) != 0 {
+				sh.Use = append(sh.Use, n)
+			}
+		}
+		sh.Name = strings.Join(sh.Use, "+")
+		if sh.Name == "" {
+			sh.Name = "no-options"
+		}
+		out = append(out, sh)
+	}
+	return out
+}
 
 // verifyFuncTypeImpls checks every function literal of the two packages whose
 // signature is that of the named function type against the type's contract.
